@@ -401,17 +401,17 @@ theorem envEofWith_delivers (j : Nat) : (envEofWith j).Delivers := by
 theorem RdEnv.Delivers.contract {env : RdEnv} (hd : env.Delivers) : env.Contract :=
   fun k want _ => (hd k want).1
 
-theorem envFault_contract (j kind : Nat) : (envFault j kind).Contract := by
+theorem envFault_contract (j kind : Nat) (hk : kind ≤ 3) : (envFault j kind).Contract := by
   intro k want
   unfold envFault
   by_cases h : k ≠ j
   · rw [if_pos h]; intro _; exact Nat.le_refl _
   · rw [if_neg h]
-    match kind with
-    | 0 => intro he; cases he
-    | 1 => by_cases hw : want ≤ 1 <;> simp [hw]
-    | 2 => by_cases hw : want ≤ 1 <;> simp [hw]
-    | _ + 3 => intro he; cases he
+    match kind, hk with
+    | 0, _ => intro he; cases he
+    | 1, _ => by_cases hw : want ≤ 1 <;> simp [hw]
+    | 2, _ => by_cases hw : want ≤ 1 <;> simp [hw]
+    | 3, _ => intro he; cases he
 
 /-- the faulty read of `envFault` is short, whatever it is asked for -/
 theorem envFault_short (j kind want : Nat) (hw : 0 < want) : (envFault j kind j want).n < want := by
@@ -421,6 +421,8 @@ theorem envFault_short (j kind want : Nat) (hw : 0 < want) : (envFault j kind j 
   | 0 => exact hw
   | 1 => by_cases h1 : want ≤ 1 <;> simp [h1] <;> omega
   | 2 => by_cases h1 : want ≤ 1 <;> simp [h1] <;> omega
-  | _ + 3 => exact hw
+  | 3 => exact hw
+  | 4 => show want - 1 < want; omega
+  | _ + 5 => exact hw
 
 end GoUefi.Impl
